@@ -282,6 +282,8 @@ def _cell_error(ctx, mname, lnone, rnone, decimal=False):
 
 
 def r2_sum_rule(ctx):
+    from . import C06 as _C06
+    _C06.r2_shapes(ctx)             # negation, product and quotient hand the whole magnitude (value and uncertainty) on (shared with C06.R2)
     l, r, le, re_ = (Term.sym(x) for x in ("l", "r", "le", "re"))
     for m, sign in (("_add", 1), ("_sub", -1)):
         for lnone in (True, False):
